@@ -171,6 +171,7 @@ var fullContexts = []context{
 	{"{ a ( b :", ") }"},
 	{"{", "}"},
 	{"{ ...", "}"},
+	{"{ ...", "{ a } }"},
 	{"{ a", "}"},
 	{"query", "{ a }"},
 	{"fragment", "{ a }"},
@@ -196,7 +197,7 @@ func main() {
 		return
 	}
 	defer drv.Close()
-	run.Res.Rule = "source texts: (a) all token sequences over the 37-symbol alphabet (14 punctuators, 18 keywords, name, int, float, string, block string) up to length 3 quick / 4 thorough, single-space separated; (b) all sequences over the 12-symbol alphabet [ ] ! { } ( ) : $ = a 1 up to length 6 / 8 inside 5 contexts (raw, variable type, argument value, field type, variable default), enumerated as the viable-prefix tree; (b') all sequences over the 37-symbol alphabet up to length 2 / 3 inside 19 production contexts (variable type/default, argument value, selection, spread, field tail, operation head, fragment head, object head/field/argument definition, union members, enum/input/schema bodies, directive head/locations, extend, after a description); (c) gen.DocGen documents (executable and type-system, Exotic); (d) 1-3 token-level mutations (insert/delete/swap/replace) of (c). Compared: accept/reject real vs M and vs S, AST incl. every location real vs M, error offset real vs M, source body unchanged. non-trivial = the token list has >= 2 tokens before EOF and the real parser got past the first token (accepted, or error offset > start of the first token); distinct by source text"
+	run.Res.Rule = "source texts: (a) all token sequences over the 37-symbol alphabet (14 punctuators, 18 keywords, name, int, float, string, block string) up to length 3 quick / 4 thorough, single-space separated; (b) all sequences over the 12-symbol alphabet [ ] ! { } ( ) : $ = a 1 up to length 6 / 8 inside 5 contexts (raw, variable type, argument value, field type, variable default), enumerated as the viable-prefix tree; (b') all sequences over the 37-symbol alphabet plus the strings \"on\" and \"implements\" up to length 2 / 3 inside 20 production contexts (variable type/default, argument value, selection, spread, field tail, operation head, fragment head, object head/field/argument definition, union members, enum/input/schema bodies, directive head/locations, extend, after a description); (c) gen.DocGen documents (executable and type-system, Exotic); (d) 1-3 token-level mutations (insert/delete/swap/replace) of (c). Compared: accept/reject real vs M and vs S, AST incl. every location real vs M, error offset real vs M, source body unchanged. non-trivial = the token list has >= 2 tokens before EOF and the real parser got past the first token (accepted, or error offset > start of the first token); distinct by source text"
 
 	lexErrors := 0
 	staleKF := 0
@@ -386,6 +387,8 @@ func main() {
 
 	// ---- (b') every full-alphabet sequence up to length 2 / 3 inside each production context
 	maxC := run.N(2, 3)
+	// plus string tokens whose VALUE is a keyword (the parser must look at the kind, not only at the value)
+	fullPlus := append(append([]string{}, full...), "\"on\"", "\"implements\"")
 	completeC := true
 	for _, ctx := range fullContexts {
 		var recC func(seq []string, depth int)
@@ -398,7 +401,7 @@ func main() {
 			if depth == maxC {
 				return
 			}
-			for _, s := range full {
+			for _, s := range fullPlus {
 				recC(append(seq, s), depth+1)
 			}
 		}
